@@ -63,6 +63,16 @@ def generated_schema_text():
             <description>Generated upper.</description>
          </node>
          <node>
+            <name>Zq-level</name>
+            <description>Generated node that declares extensionAllowed itself and takes a value.</description>
+            <attribute><name>extensionAllowed</name></attribute>
+            <node>
+               <name>#</name>
+               <attribute><name>takesValue</name></attribute>
+               <attribute><name>valueClass</name><value>textClass</value></attribute>
+            </node>
+         </node>
+         <node>
             <name>Zq-quantity</name>
             <description>Generated node that takes a value and also has named children.</description>
             <node>
